@@ -84,6 +84,11 @@ var('ok_c03_no_timestamp', 'C03', Y,
 var('ok_c03_single_write_call', 'C03', Y,
     ("                with open(self.filename, 'a') as f:\n                    f.write(contents)\n", "                with open(self.filename, 'a') as f:\n                    for _line in contents.splitlines(True):\n                        f.write(_line)\n"))
 
+var('ok_c03_plain_userwarning', 'C03', Y, ('            warnings.warn("Nothing to be appended!", PydlutilsUserWarning)', '            warnings.warn("Nothing to be appended!", UserWarning)'))
+var('ok_c03_unicode_string_columns', 'C03', Y, ('                d = "S{0:d}".format(self.char_length(structure, c))', '                d = "U{0:d}".format(self.char_length(structure, c))'))
+var('ok_c03_write_via_tempfile_rename', 'C03', Y,
+    ("        with open(newfile, 'w') as f:\n            f.write(contents)\n", "        with open(newfile + '.tmp', 'w') as f:\n            f.write(contents)\n        os.rename(newfile + '.tmp', newfile)\n"))
+var('ok_c03_int64_columns_widened', 'C03', Y, ("        dtmap = {'short': 'i2', 'int': 'i4', 'long': 'i8', 'float': 'f',\n                 'double': 'd'}\n        for c in self.columns(structure):", "        dtmap = {'short': 'i4', 'int': 'i8', 'long': 'i8', 'float': 'f',\n                 'double': 'd'}\n        for c in self.columns(structure):"))
 # ---- C20 mutants ---------------------------------------------------------------------
 mut('c20_w_restore_on_success_only', 'C20', W, (FIN_W, "    finally:\n        pass\n    os.environ['PHOTO_CALIB'] = calib_dir_save\n"))
 mut('c20_w_restore_if_rescore', 'C20', W, (FIN_W, FIN_W.replace("        os.environ['PHOTO_CALIB'] = calib_dir_save", "        if rescore:\n            os.environ['PHOTO_CALIB'] = calib_dir_save")))
@@ -138,6 +143,10 @@ var('ok_c20_s_metadata_restores_itself', 'C20', S,
     ("    if metadata['method'].lower() == 'hmf':\n        required_hmf_metadata",
      "    if metadata['method'].lower() == 'hmf' and 'nonnegative' not in par:\n        for r in ('run2d', 'run1d'):\n            if metadata['orig_'+r] is None:\n                del os.environ[r.upper()]\n            else:\n                os.environ[r.upper()] = metadata['orig_'+r]\n    if metadata['method'].lower() == 'hmf':\n        required_hmf_metadata"))
 
+var('ok_c20_s_mock_patch_dict', 'C20', S,
+    (SNAP_S + "    try:\n" + CALL_S + FIN_S, "    from unittest import mock\n    with mock.patch.dict(os.environ):\n        _template_input(inputfile, dumpfile, flux=flux, verbose=verbose)\n"))
+var('ok_c20_w_copy_and_replace', 'C20', W, (FIN_W, "    finally:\n        os.environ.clear()\n        os.environ.update(_saved_env)\n"),
+    ("    del os.environ['PHOTO_CALIB']\n    try:\n", "    _saved_env = dict(os.environ)\n    del os.environ['PHOTO_CALIB']\n    try:\n"))
 
 def main():
     out_m = os.path.join(HERE, 'mutants')
